@@ -90,6 +90,32 @@ class Writer:
                 self.tables[fi.key] = cols
 
 
+def tables_fixed(ctx, ci):
+    """Look-up tables are created by DataFrame construction only and never replaced or re-ordered afterwards (shared with
+    R-C05-12: the look-ups pair table rows with the load series by position)."""
+    REORDER = ("sort_index", "sort_values", "reindex", "sample", "reorder_levels", "swaplevel", "reset_index", "set_index", "take")
+    for name, defs in ci.methods.items():
+        fi = defs[-1]
+        for st in walk_function(fi.node):
+            if isinstance(st, ast.Assign):
+                for t in st.targets:
+                    if is_self_attr(t) and t.attr.startswith("_lut"):
+                        v = st.value
+                        if isinstance(v, ast.Call) and call_name(v) in ("pd.DataFrame", "pandas.DataFrame"):
+                            ctx.holds(fi, st, "%s created by DataFrame construction" % t.attr)
+                        else:
+                            ctx.violated(fi, st, "table %s is replaced by %s after its construction: the look-ups pair table rows with "
+                                         "the load series by position, so the row order (class x given point order) must not change"
+                                         % (t.attr, norm_text(v)[:80]))
+                    if isinstance(t, ast.Attribute) and t.attr == "index" and is_self_attr(t.value) and t.value.attr.startswith("_lut"):
+                        ctx.violated(fi, st, "index of table %s is replaced after construction" % t.value.attr)
+            if isinstance(st, ast.Expr) and isinstance(st.value, ast.Call) and isinstance(st.value.func, ast.Attribute) and \
+                    st.value.func.attr in REORDER and is_self_attr(st.value.func.value) and st.value.func.value.attr.startswith("_lut") \
+                    and any(k.arg == "inplace" and const_value(k.value) is True for k in st.value.keywords):
+                ctx.violated(fi, st, "table %s is re-ordered in place" % st.value.func.value.attr)
+
+
+
 def lookup_methods(prog):
     ci = prog.cls(MOD + ":Binned")
     out = []
@@ -276,26 +302,7 @@ def run(ctx):
 
     # ---------------------------------------------------------- R-C07-8: tables are built once, never replaced or re-ordered
     ctx.rule("R-C07-8", floor=4, what="look-up tables are created by DataFrame construction only and never re-ordered afterwards")
-    REORDER = ("sort_index", "sort_values", "reindex", "sample", "reorder_levels", "swaplevel", "reset_index", "set_index", "take")
-    for name, defs in ci.methods.items():
-        fi = defs[-1]
-        for st in walk_function(fi.node):
-            if isinstance(st, ast.Assign):
-                for t in st.targets:
-                    if is_self_attr(t) and t.attr.startswith("_lut"):
-                        v = st.value
-                        if isinstance(v, ast.Call) and call_name(v) in ("pd.DataFrame", "pandas.DataFrame"):
-                            ctx.holds(fi, st, "%s created by DataFrame construction" % t.attr)
-                        else:
-                            ctx.violated(fi, st, "table %s is replaced by %s after its construction: the look-ups pair table rows with "
-                                         "the load series by position, so the row order (class x given point order) must not change"
-                                         % (t.attr, norm_text(v)[:80]))
-                    if isinstance(t, ast.Attribute) and t.attr == "index" and is_self_attr(t.value) and t.value.attr.startswith("_lut"):
-                        ctx.violated(fi, st, "index of table %s is replaced after construction" % t.value.attr)
-            if isinstance(st, ast.Expr) and isinstance(st.value, ast.Call) and isinstance(st.value.func, ast.Attribute) and \
-                    st.value.func.attr in REORDER and is_self_attr(st.value.func.value) and st.value.func.value.attr.startswith("_lut") \
-                    and any(k.arg == "inplace" and const_value(k.value) is True for k in st.value.keywords):
-                ctx.violated(fi, st, "table %s is re-ordered in place" % st.value.func.value.attr)
+    tables_fixed(ctx, ci)
 
     # ---------------------------------------------------------- R-C07-9: look-ups are functions of (tables, arguments)
     ctx.rule("R-C07-9", floor=4, what="look-up methods keep no per-call state: no write to self, no read of state written by another look-up")
@@ -377,6 +384,21 @@ def _check_return(ctx, fi, cfg, dom, ret, R, env, facts, law_of, grid_col, label
     tab, col, masked = _table_of(X)
     if tab is None:
         raise AnalysisError("%s: searched array %s is not a table column" % (fi.key, norm_text(X)))
+    # the class index is the search result up to the constant -1/+1 shifts: clamping or conditional replacement moves loads
+    # into another class (or an out-of-range load into range)
+    idx_names = {st.targets[0].id for st in walk_function(fi.node) if isinstance(st, ast.Assign) and
+                 isinstance(st.targets[0], ast.Name) and any(norm_text(c) == ptext for c in calls_in(st.value))}
+    for st in walk_function(fi.node):
+        if isinstance(st, ast.Assign) and isinstance(st.targets[0], ast.Name) and st.targets[0].id in idx_names and \
+                not any(norm_text(c) == ptext for c in calls_in(st.value)):
+            clamp = [c for c in calls_in(st.value) if (call_name(c) or "") in ("np.maximum", "np.minimum", "np.clip", "np.where", "max",
+                                                                                 "min", "np.abs", "abs")]
+            same_branch = any(x is ret for x in ast.walk(st._parent)) if hasattr(st, "_parent") else True
+            if clamp and same_branch:
+                ctx.violated(fi, st, "the class index is altered after the search by %s: loads whose search result is changed by it "
+                             "(the first class, or a load above the table) are looked up in another class than the one their "
+                             "load lies in" % norm_text(st.value), rule="R-C07-3", text="index altered " + norm_text(st.value))
+                return
 
     def atom(e):
         if isinstance(e, ast.Call) and norm_text(e) == ptext:
@@ -586,6 +608,18 @@ def _guards(m):
 
 def variants():
     out = []
+
+    def clamp_index(tree):
+        f = find_func(tree, "Binned.strain_secondary_branch")
+        for n in ast.walk(f):
+            if isinstance(n, ast.Assign) and isinstance(n.targets[0], ast.Name) and "searchsorted" in ast.unparse(n.value) and \
+                    "values" in ast.unparse(n.value):
+                par = n._parent
+                blk = par.body if n in par.body else par.orelse
+                blk.insert(blk.index(n) + 1, parse_stmt("%s = np.maximum(%s, 0)" % (n.targets[0].id, n.targets[0].id)))
+                return True
+        return False
+    out.append(witness("class index clamped at zero after the search", PATH, clamp_index, "R-C07-3"))
 
     def cache_index(tree):
         f = find_func(tree, "Binned.stress")
